@@ -11,7 +11,12 @@ decorators, cached properties; imports from the standard library (Python and C i
 plain values); wildcard imports between the modules (absolute and relative, chains, out of and into a sub-package, of a
 package, before / between / after single-name imports, colliding with a local definition either way) from modules whose
 ``__all__`` is absent, empty (list, tuple, annotated), a list / tuple / annotated literal, grown with ``+=``, composed from
-another module's ``__all__``, and lists private, dunder, imported and wildcard-imported names.
+another module's ``__all__``, and lists private, dunder, imported and wildcard-imported names; any module-level or
+class-level definition may sit inside a compound statement (nested too) built so that CPython runs exactly that block:
+try/except with the handler taken (missing accelerator module, raise, NameError; one or several handlers, ``as``, bare,
+tuple), the optional-accelerator idiom (same name imported in the try body and defined in the handler), try/else/finally,
+``except*``, if/elif/else on conditions only the interpreter evaluates, match/case (literal, sequence, mapping, class,
+or-patterns, guards, captures), with, for/while with else and break; the other blocks hold definitions that never run.
 Oracle: each package (unique name) is loaded statically and with ``force_inspection=True`` in
 this child; normalised skeletons are compared, allowed differences are removed *by rule*
 (dunder names the source does not assign, instance attributes, attribute docstrings, line
@@ -41,7 +46,8 @@ RULE = ("generated importable packages (init + 2-3 modules, optional sub-package
         "annotations as objects / strings / under the annotations future import, resolvable at module level or not: nested "
         "classes, TYPE_CHECKING-only imports, type parameters, undefined names, non-expressions; return annotations; wraps and "
         "identity decorators; standard-library imports; wildcard imports over every __all__ shape, chains, sub-packages, "
-        "name collisions), classes with instance/static/class methods, properties, nested classes, single and cross-module "
+        "name collisions; definitions inside executed and non-executed blocks of try/except/else/finally, except*, if/elif/else, "
+        "match/case, with, for/while/else), classes with instance/static/class methods, properties, nested classes, single and cross-module "
         "inheritance, literal module/class attributes, __init__ with instance attributes, docstrings, imports of classes/"
         "functions/modules/plain values between the modules. distinct = digest of files; non-trivial = package with "
         "inheritance, a property and an intra-package import")
@@ -60,9 +66,19 @@ REQUIRED_COUNTERS = ["packages_compared", "members_compared", "functions_compare
                      "wildcard_imports_compared", "wildcard_source_all_absent", "wildcard_source_all_empty",
                      "wildcard_source_all_nonempty", "wildcard_source_all_augmented", "wildcard_source_all_composed",
                      "wildcard_source_all_lists_private", "wildcard_chain", "wildcard_of_package", "wildcard_in_subpackage",
-                     "wildcard_name_also_bound_locally"]
+                     "wildcard_name_also_bound_locally", "class_namespaces_vs_cpython", "defs_in_try_handler", "defs_in_trystar_handler",
+                     "defs_in_match_case", "defs_in_if_body", "defs_in_if_orelse", "defs_in_try_body", "defs_in_try_orelse",
+                     "defs_in_try_finalbody", "defs_in_with_body", "defs_in_for_body", "defs_in_for_orelse", "defs_in_while_body",
+                     "defs_in_while_orelse", "fallback_idiom_defs", "non_taken_branch_names_excluded"]
 EXHAUSTIVE = {"quick": False, "thorough": False}
-ASSUMPTIONS = ["generated code has no import-time side effects; packages get unique names and are purged from sys.modules"]
+ASSUMPTIONS = ["generated code has no import-time side effects; packages get unique names and are purged from sys.modules",
+               "branches of compound statements: the module CPython executed is the ground truth. A name written only in blocks that "
+               "did not run (absent from the real namespace, every binding statement inside a compound statement; also when it arrives "
+               "through a wildcard import of such a module) may appear in the static tree and is not judged; every name CPython bound "
+               "is judged in full on the static side",
+               "a name written in several branches is only generated so that the binding CPython executes is the one written last and "
+               "all bindings are def / class / import statements (the optional-accelerator idiom); for assignments in if / except "
+               "blocks the visitor deliberately keeps the first one ('prefer the no-exception case'), which no agent can decide"]
 KIND_TXT = {c02.PO: "positional-only", c02.PK: "positional or keyword", c02.VP: "variadic positional", c02.KO: "keyword-only",
             c02.VK: "variadic keyword"}
 
@@ -107,11 +123,12 @@ class Scope:
     defaults:  expressions usable as a default value at this place.
     """
 
-    def __init__(self, future: bool, evaluable: list[str], deferred: list[str], defaults: list[str]) -> None:
+    def __init__(self, future: bool, evaluable: list[str], deferred: list[str], defaults: list[str], ctx: dict | None = None) -> None:
         self.future, self.evaluable, self.deferred, self.defaults = future, list(evaluable), list(deferred), list(defaults)
+        self.ctx = ctx if ctx is not None else {"pkg": "", "tag": "x", "n": 0}  # shared by the scopes of one module
 
     def child(self, evaluable: tuple | list = (), deferred: tuple | list = ()) -> Scope:
-        return Scope(self.future, [*self.evaluable, *evaluable], [*self.deferred, *deferred], self.defaults)
+        return Scope(self.future, [*self.evaluable, *evaluable], [*self.deferred, *deferred], self.defaults, self.ctx)
 
 
 def gen_ann(rng: random.Random, sc: Scope) -> str:
@@ -192,6 +209,141 @@ def gen_def(rng: random.Random, sc: Scope, ind: str, name: str, first: str | Non
     return src + f"\n{ind}    return 1\n"
 
 
+TRUE_CONDITIONS = ['__name__ != "__main__"', 'len("ab") == 2', "isinstance(1, int)", 'not ""', "True", "1", "not False"]
+FALSE_CONDITIONS = ['__name__ == "__main__"', 'len("ab") == 3', "isinstance(1, str)", '""', "False", "0", "not True"]
+MATCHES = [("1", "1", "2"), ("(1, 2)", "(1, _vf_captured)", "(3, _)"), ('"posix"', '"posix"', '"nt"'), ('len("ab")', "2", "3"), ("(1, 2)", "(1, _)", "(3, _)"),
+           ("None", "None", "0"), ('{"k": 1}', '{"k": 1}', '{"z": _}'), ("1", "1 | 2", "3 | 4"), ("1.5", "float()", "str()"), ("2", "int()", "str()"), ('"a"', '"a" | "b"', '"c"'), ("[1]", "[1]", "[]"),
+           ("(1, 2)", "[1, *_vf_rest]", "[]")]
+
+
+def decoy(rng: random.Random, ind: str, name: str, in_class: bool, kinds: tuple = ("function", "class", "value", "import")) -> str:
+    """A definition for a branch that never runs: CPython binds nothing, whatever the static agent makes of it."""
+    k = rng.choice(kinds)
+    if k == "function":
+        return (f'{ind}def {name}({"self, " if in_class else ""}not_taken, other=0):\n{ind}    """Never defined when the module runs."""\n'
+                f"{ind}    return 0\n")
+    if k == "class":
+        return (f'{ind}class {name}:\n{ind}    """Never defined when the module runs."""\n{ind}    flag = 0\n'
+                f"{ind}    def probe(self):\n{ind}        return 0\n")
+    if k == "value":
+        return f"{ind}{name} = 0\n"
+    return rng.choice([f"{ind}from os import sep as {name}\n", f"{ind}import json as {name}\n"])
+
+
+def wrap_block(rng: random.Random, sc: Scope, ind: str, taken: str, name: str, kind: str, in_class: bool = False) -> str:  # noqa: C901, PLR0912, PLR0915
+    """Put the definition `taken` (text at indentation `ind`) into a compound statement so that CPython runs exactly it.
+
+    Other branches get definitions under fresh names, or under the *same* name when they are ``def``/``class`` statements
+    written before the one that runs (the fallback idiom: the binding that counts is the last one written and executed).
+    """
+    ctx = sc.ctx
+
+    def fresh() -> str:
+        ctx["n"] += 1
+        return f"{name.lower()}_nt{ctx['n']}"
+
+    def deeper(text: str) -> str:
+        return "".join("    " + ln if ln.strip() else ln for ln in text.splitlines(True))
+
+    i1 = ind + "    "
+    redefinable = kind in ("function", "class")
+    T = deeper(taken)
+
+    def D(before: bool = False) -> str:  # noqa: N802
+        if before and redefinable and rng.random() < 0.5:
+            return decoy(rng, i1, name, in_class, ("function", "class"))
+        return decoy(rng, i1, fresh(), in_class)
+
+    def X() -> str:  # noqa: N802  -- something harmless that really runs
+        return rng.choice([f"{i1}pass\n", f"{i1}{fresh().replace('_nt', '_run')} = 1\n"])
+
+    form = rng.choice(["try_except", "try_except", "try_except", "try_else_finally", "except_star", "if", "if", "match", "match",
+                       "with", "for", "while"])
+    if form == "try_except":
+        raisers = [("import _vf_missing_accelerator\n", "import"), ('raise ImportError("no accelerator")\n', "import"),
+                   ("_vf_undefined_name\n", "name"), ("from _vf_missing_accelerator import speedup\n", "import")]
+        if redefinable:  # the optional-accelerator idiom: the same name is imported in the try body and defined in the handler
+            raisers += [(f"from {ctx['pkg']}._vf_speedups import {name}\n", "import"), (f"import _vf_missing_accelerator as {name}\n", "import"),
+                        (f"from ._vf_speedups import {name}\n", "import")] * 2
+        raiser, exc = rng.choice(raisers)
+        heads = {"import": ["except ImportError:", "except (ImportError, AttributeError):", "except Exception as exc:", "except:",
+                            "except ImportError as error:"],
+                 "name": ["except NameError:", "except (NameError, ImportError):", "except Exception:", "except:"]}[exc]
+        if "missing" in raiser or "speedups" in raiser:
+            heads = [*heads, "except ModuleNotFoundError:"]
+        out = f"{ind}try:\n{i1}{raiser}"
+        if rng.random() < 0.3:
+            out += f"{ind}except KeyError:\n{D(before=True)}"
+        out += f"{ind}{rng.choice(heads)}\n{T}"
+        if rng.random() < 0.2:
+            out += f"{ind}finally:\n{X()}"
+        return out
+    if form == "try_else_finally":
+        where = rng.choice(["try", "else", "finally"])
+        out = f"{ind}try:\n{T if where == 'try' else X()}{ind}except ImportError:\n{D()}"
+        if where == "else" or rng.random() < 0.3:
+            out += f"{ind}else:\n{T if where == 'else' else X()}"
+        if where == "finally" or rng.random() < 0.3:
+            out += f"{ind}finally:\n{T if where == 'finally' else X()}"
+        return out
+    if form == "except_star":
+        out = f'{ind}try:\n{i1}raise ExceptionGroup("optional parts", [ImportError("no accelerator")])\n'
+        if rng.random() < 0.4:
+            out += f"{ind}except* KeyError:\n{D(before=True)}"
+        return out + f"{ind}except* {rng.choice(['ImportError', '(ImportError, OSError)', 'Exception'])}:\n{T}"
+    if form == "if":
+        yes, no = rng.choice(TRUE_CONDITIONS), rng.choice(FALSE_CONDITIONS)
+        where = rng.choice(["if", "elif", "else"])
+        if where == "if":
+            if rng.random() < 0.03:
+                yes = f"(_{fresh().lstrip('_').replace('_nt', '_wal')} := 2) > 1"
+            out = f"{ind}if {yes}:\n{T}"
+            if rng.random() < 0.5:
+                out += (f"{ind}elif {rng.choice(TRUE_CONDITIONS + FALSE_CONDITIONS)}:\n{D()}" if rng.random() < 0.4 else "") + f"{ind}else:\n{D()}"
+            return out
+        if where == "elif":
+            return f"{ind}if {no}:\n{D(before=True)}{ind}elif {yes}:\n{T}" + (f"{ind}else:\n{D()}" if rng.random() < 0.5 else "")
+        return f"{ind}if {no}:\n{D(before=True)}" + (f"{ind}elif {rng.choice(FALSE_CONDITIONS)}:\n{D(before=True)}" if rng.random() < 0.3 else "") + f"{ind}else:\n{T}"
+    if form == "match":
+        # patterns that capture a name bind it in a position the visitor has no handler for: rare
+        subject, hit, miss = rng.choice([mt for mt in MATCHES if "_vf_" not in mt[1]] if rng.random() < 0.9 else MATCHES)
+        i2 = i1 + "    "
+        T2 = deeper(T)  # noqa: N806
+        dec = lambda before: deeper(D(before))  # noqa: E731
+        out = f"{ind}match {subject}:\n"
+        if rng.random() < 0.6:
+            out += f"{i1}case {miss}:\n{dec(True)}"
+        if rng.random() < 0.6:
+            out += f"{i1}case {hit}" + (" if True" if rng.random() < 0.2 else "") + f":\n{T2}" + (f"{i1}case _:\n{dec(False)}" if rng.random() < 0.5 else "")
+        else:
+            out += f"{i1}case _:\n{T2}"
+        del i2
+        return out
+    if form == "with":
+        # `as` binds a (private) name in a position the visitor has no handler for
+        target = f" as _{fresh().lstrip('_').replace('_nt', '_w')}" if rng.random() < 0.04 else ""
+        return f"{ind}with memoryview(b\"\"){target}:\n{T}"
+    if form == "for":
+        var = f"_{fresh().lstrip('_').replace('_nt', '_i')}"
+        if rng.random() < 0.6:
+            # mostly the loop variable is unbound again before anyone can see it; otherwise it stays a (private) name
+            return (f"{ind}for {var} in range(1):\n{T}" + (f"{ind}else:\n{X()}" if rng.random() < 0.4 else "")
+                    + (f"{ind}del {var}\n" if rng.random() < 0.95 else ""))
+        return f"{ind}for {var} in ():\n{D(before=True)}{ind}else:\n{T}"
+    if rng.random() < 0.6:
+        return f"{ind}while True:\n{T}{i1}break\n" + (f"{ind}else:\n{D()}" if rng.random() < 0.4 else "")
+    return f"{ind}while {rng.choice(FALSE_CONDITIONS)}:\n{D(before=True)}{ind}else:\n{T}"
+
+
+def maybe_wrap(rng: random.Random, sc: Scope, ind: str, taken: str, name: str, kind: str, in_class: bool = False, p: float = 0.25) -> str:
+    if rng.random() >= p:
+        return taken
+    out = wrap_block(rng, sc, ind, taken, name, kind, in_class)
+    if rng.random() < 0.15:  # compound statements nest
+        out = wrap_block(rng, sc, ind, out, name, "nested", in_class)
+    return out
+
+
 def gen_class(rng: random.Random, sc: Scope, name: str, bases: list[str], deco: list[str] | None, indent: str = "", depth: int = 0,
               outer: tuple = ()) -> str:
     ind = indent + "    "
@@ -211,20 +363,25 @@ def gen_class(rng: random.Random, sc: Scope, name: str, bases: list[str], deco: 
         r = rng.random()
         mname = f"{name.lower()}_m{i}"
         doc = f"Doc of {mname}." if rng.random() < 0.5 else ""
+        kind = "function"
         if r < 0.35:
-            src += gen_def(rng, msc, ind, mname, "self", doc, deco)
+            chunk = gen_def(rng, msc, ind, mname, "self", doc, deco)
         elif r < 0.5:
-            src += gen_def(rng, msc, ind, mname, None, doc, deco, pre=("staticmethod",))
+            chunk = gen_def(rng, msc, ind, mname, None, doc, deco, pre=("staticmethod",))
         elif r < 0.65:
-            src += gen_def(rng, msc, ind, mname, "cls", doc, deco, pre=("classmethod",))
+            chunk = gen_def(rng, msc, ind, mname, "cls", doc, deco, pre=("classmethod",))
         elif r < 0.8:
             ret = " -> " + gen_ann(rng, msc) if rng.random() < 0.3 else ""
             # functools is imported by the modules that define a wraps decorator
             prop = "functools.cached_property" if any(d.endswith("_deco") for d in deco or ()) and rng.random() < 0.3 else "property"
-            src += f"{ind}@{prop}\n{ind}def {mname}(self){ret}:" + (f'\n{ind}    """{doc}"""' if doc else "") + f"\n{ind}    return 1\n"
+            chunk = f"{ind}@{prop}\n{ind}def {mname}(self){ret}:" + (f'\n{ind}    """{doc}"""' if doc else "") + f"\n{ind}    return 1\n"
         else:
+            kind = "value"
             ann = ": " + gen_ann(rng, msc) if rng.random() < 0.25 else ""
-            src += f"{ind}{mname}{ann} = {rng.choice(['1', repr('v'), '(1, 2)', 'None', '2.5'])}\n"
+            chunk = f"{ind}{mname}{ann} = {rng.choice(['1', repr('v'), '(1, 2)', 'None', '2.5'])}\n"
+        src += maybe_wrap(rng, msc, ind, chunk, mname, kind, in_class=True, p=0.15)
+        if rng.random() < 0.002:
+            src += f"{ind}_{mname.lstrip('_')}_u, _{mname.lstrip('_')}_v = 1, 2\n"  # unpacking assignment: binds two (private) class attributes
     if rng.random() < 0.4:
         src += f"{ind}def __init__(self, a=0):\n{ind}    self.inst_{name.lower()} = a\n"
     if inner and not inner_first:
@@ -405,11 +562,12 @@ def gen_module(rng: random.Random, name: str, mod: Mod, prevs: list[Mod]) -> str
         plan.append(("__version__", "value"))
     cap = lambda nm: nm.capitalize() if not nm.startswith("_") else "_" + nm[1:].capitalize()  # noqa: E731
     later = [cap(nm) for nm, kind in plan if kind == "class"]
+    ctx = {"pkg": name, "tag": m, "n": 0}
     for nm, kind in plan:
-        sc = Scope(future, evaluable, deferred + later, defaults)
+        sc = Scope(future, evaluable, deferred + later, defaults, ctx)
         if kind == "function":
             doc = f"Function {nm}." if rng.random() < 0.5 else ""
-            src += gen_def(rng, sc, "", nm, None, doc, deco, allow_async=0.15)
+            src += maybe_wrap(rng, sc, "", gen_def(rng, sc, "", nm, None, doc, deco, allow_async=0.15), nm, "function")
             defs.append((nm, "function"))
         elif kind == "class":
             cname = cap(nm)
@@ -418,15 +576,21 @@ def gen_module(rng: random.Random, name: str, mod: Mod, prevs: list[Mod]) -> str
             if classes_here and rng.random() < 0.6:
                 bases = [rng.choice(classes_here)]
             later.remove(cname)
-            src += gen_class(rng, Scope(future, evaluable, deferred + later, defaults), cname, bases, deco)
+            csc = Scope(future, evaluable, deferred + later, defaults, ctx)
+            src += maybe_wrap(rng, csc, "", gen_class(rng, csc, cname, bases, deco), cname, "class")
             defs.append((cname, "class"))
             evaluable.append(cname)
             defaults.append(cname)
         else:
             ann = ": " + gen_ann(rng, sc) if rng.random() < 0.2 else ""
-            src += f"{nm}{ann} = {rng.choice(['1', repr('text'), '[1, 2]', 'None', '3.5', '{1: 2}'])}\n"
+            src += maybe_wrap(rng, sc, "", f"{nm}{ann} = {rng.choice(['1', repr('text'), '[1, 2]', 'None', '3.5', '{1: 2}'])}\n", nm, "value")
             defs.append((nm, "value"))
             defaults.append(nm)
+        if rng.random() < 0.004:
+            # unpacking assignments bind (private) module attributes without a plain-name target
+            t = nm.strip("_")
+            src += rng.choice([f"_{t}_u, _{t}_v = 1, 2\n", f"[_{t}_u, _{t}_v] = 1, 2\n", f"_{t}_u, *_{t}_v = 1, 2, 3\n",
+                               f"_{t}_u, (_{t}_v, _{t}_w) = 1, (2, 3)\n"])
     kinds = {d: k.replace("imported-", "") for d, k in defs}
     imp, top, bottom = gen_all(rng, name, mod, list(kinds), wild)
     mod.exported = [(d, k) for d, k in kinds.items() if not d.startswith("mod_")]
@@ -475,23 +639,144 @@ def shards(tier: str, seed: int) -> list[dict]:
 
 
 # -- comparison ---------------------------------------------------------------------------------
-def assigned_names(src: str, class_path: list[str]) -> set[str]:
-    """Names bound by statements in the module body / the given nested class body."""
-    node: ast.AST = ast.parse(src)
-    for cname in class_path:
-        node = next(n for n in node.body if isinstance(n, ast.ClassDef) and n.name == cname)  # type: ignore[attr-defined]
-    out = set()
-    for st in node.body:  # type: ignore[attr-defined]
+@functools.lru_cache(maxsize=64)
+def _parse(src: str) -> ast.Module:
+    return ast.parse(src)
+
+
+def _sub_bodies(st: ast.stmt):  # noqa: ANN202
+    """(label, statement list) for every block nested directly in a compound statement."""
+    kind = type(st).__name__.lower().replace("async", "")
+    if isinstance(st, (ast.If, ast.For, ast.AsyncFor, ast.While)):
+        return [(f"{kind}_body", st.body), (f"{kind}_orelse", st.orelse)]
+    if isinstance(st, (ast.Try, ast.TryStar)):
+        return [(f"{kind}_body", st.body), *[(f"{kind}_handler", h.body) for h in st.handlers], (f"{kind}_orelse", st.orelse),
+                (f"{kind}_finalbody", st.finalbody)]
+    if isinstance(st, (ast.With, ast.AsyncWith)):
+        return [("with_body", st.body)]
+    if isinstance(st, ast.Match):
+        return [("match_case", c.body) for c in st.cases]
+    return []
+
+
+def _target_names(node: ast.AST) -> list[str]:
+    return [n.id for n in ast.walk(node) if isinstance(n, ast.Name) and isinstance(n.ctx, ast.Store)]
+
+
+class Bindings:
+    """Who binds which name in one module / class body, read off the syntax only.
+
+    plain:   name -> labels of the places where a def / class / import / assignment to a bare name binds it, in source order
+             ("top" for the body itself, "try_handler", "match_case", "if_orelse", ... for blocks of compound statements);
+    targets: names bound in positions the visitor has no handler for: unpacking assignments, ``for`` and ``with ... as``
+             targets, ``:=`` in a statement's own expressions, captures of ``case`` patterns;
+    idiom:   names imported in a ``try`` body and defined by def / class in a handler of the same ``try``.
+    """
+
+    def __init__(self) -> None:
+        self.plain: dict[str, list[str]] = {}
+        self.targets: set[str] = set()
+        self.idiom: set[str] = set()
+
+    @property
+    def top(self) -> set[str]:
+        return {n for n, labels in self.plain.items() if "top" in labels}
+
+    @property
+    def nested(self) -> set[str]:
+        return {n for n, labels in self.plain.items() if any(lb != "top" for lb in labels)}
+
+
+def _collect(body: list, label: str, out: Bindings) -> None:  # noqa: C901, PLR0912
+    for st in body:
+        names: list[str] = []
         if isinstance(st, (ast.FunctionDef, ast.AsyncFunctionDef, ast.ClassDef)):
-            out.add(st.name)
+            names = [st.name]
         elif isinstance(st, ast.Assign):
-            out.update(t.id for t in st.targets if isinstance(t, ast.Name))
+            names = [t.id for t in st.targets if isinstance(t, ast.Name)]
+            for t in st.targets:
+                if isinstance(t, (ast.Tuple, ast.List)):
+                    out.targets.update(_target_names(t))
         elif isinstance(st, ast.AnnAssign) and isinstance(st.target, ast.Name):
-            out.add(st.target.id)
+            names = [st.target.id]
         elif isinstance(st, ast.Import):
-            out.update((a.asname or a.name.split(".")[0]) for a in st.names)
+            names = [(a.asname or a.name.split(".")[0]) for a in st.names]
         elif isinstance(st, ast.ImportFrom):
-            out.update((a.asname or a.name) for a in st.names)
+            names = [(a.asname or a.name) for a in st.names if a.name != "*"]
+        for n in names:
+            out.plain.setdefault(n, []).append(label)
+        if isinstance(st, (ast.For, ast.AsyncFor)):
+            out.targets.update(_target_names(st.target))
+        if isinstance(st, (ast.With, ast.AsyncWith)):
+            for item in st.items:
+                if item.optional_vars is not None:
+                    out.targets.update(_target_names(item.optional_vars))
+        if isinstance(st, ast.Match):
+            for case in st.cases:
+                for n in ast.walk(case.pattern):
+                    if isinstance(n, (ast.MatchAs, ast.MatchStar)) and n.name:
+                        out.targets.add(n.name)
+                    elif isinstance(n, ast.MatchMapping) and n.rest:
+                        out.targets.add(n.rest)
+        # `:=` in the statement's own expressions (not in nested blocks, functions, classes)
+        for field in ("test", "value", "iter", "subject"):
+            expr = getattr(st, field, None)
+            if isinstance(expr, ast.AST) and not isinstance(st, (ast.FunctionDef, ast.AsyncFunctionDef, ast.ClassDef)):
+                out.targets.update(n.target.id for n in ast.walk(expr) if isinstance(n, ast.NamedExpr))
+        if isinstance(st, (ast.Try, ast.TryStar)):
+            imported = {(a.asname or a.name.split(".")[0]) for x in st.body if isinstance(x, (ast.Import, ast.ImportFrom)) for a in x.names}
+            for h in st.handlers:
+                out.idiom.update(x.name for x in h.body if isinstance(x, (ast.FunctionDef, ast.AsyncFunctionDef, ast.ClassDef))
+                                 and x.name in imported)
+        for sub_label, sub in _sub_bodies(st):
+            _collect(sub, sub_label, out)
+
+
+def _find_classes(body: list, name: str) -> list[ast.ClassDef]:
+    found = []
+    for st in body:
+        if isinstance(st, ast.ClassDef) and st.name == name:
+            found.append(st)
+        for _, sub in _sub_bodies(st):
+            found += _find_classes(sub, name)
+    return found
+
+
+@functools.lru_cache(maxsize=512)
+def _scope_bindings(src: str, class_path: tuple) -> Bindings:
+    body = _parse(src).body
+    for cname in class_path:
+        # a class defined in several branches: the one written last (the generator lets CPython run that one)
+        body = sorted(_find_classes(body, cname), key=lambda c: c.lineno)[-1].body
+    out = Bindings()
+    _collect(body, "top", out)
+    return out
+
+
+def scope_bindings(src: str, class_path: list[str]) -> Bindings:
+    return _scope_bindings(src, tuple(class_path))
+
+
+def assigned_names(src: str, class_path: list[str]) -> set[str]:
+    """Names bound by statements of the module body / the given class body itself (not in blocks of compound statements)."""
+    return set(scope_bindings(src, class_path).top)
+
+
+def phantom_names(files: dict, modname: str, seen: frozenset = frozenset()) -> set[str]:
+    """Names the static agent may show in a module although CPython bound nothing: written only in branches that did not run
+    (def / class / import / assignment inside a compound statement, absent from the module's real namespace), or received by
+    a wildcard import from a module without ``__all__`` where they are such names. Syntax and CPython only, never griffe."""
+    rel = modname.replace(".", "/")
+    src = files.get(rel + "/__init__.py", files.get(rel + ".py"))
+    pymod = sys.modules.get(modname)
+    if src is None or pymod is None or modname in seen:
+        return set()
+    b = scope_bindings(src, [])
+    out = {n for n in b.nested - b.top if n not in vars(pymod)}
+    for absname in wildcard_sources(src, modname, rel + "/__init__.py" in files):
+        srcmod = sys.modules.get(absname)
+        if srcmod is not None and getattr(srcmod, "__all__", None) is None:
+            out |= {n for n in phantom_names(files, absname, seen | {modname}) if not n.startswith("_") and n not in vars(pymod)}
     return out
 
 
@@ -540,6 +825,20 @@ def observe_wildcard(rec, files: dict, absname: str, srcmod, importer: str) -> N
         rec.count("wildcard_source_all_tuple")
 
 
+def observe_branches(rec, b: Bindings, pyns: dict) -> None:  # noqa: ANN001
+    """Evidence: definitions CPython really bound that are written inside a block of a compound statement (by block kind;
+    for a name written in several blocks, the last one, which is the one the generator lets CPython run)."""
+    for n, labels in b.plain.items():
+        if n in pyns and labels[-1] != "top":
+            rec.count("defs_in_" + labels[-1])
+            rec.count("defs_in_compound_statements")
+            if len(labels) > 1:
+                rec.count("defs_rebound_across_branches")
+    for n in b.idiom:
+        if n in pyns and (inspect.isroutine(pyns[n]) or inspect.isclass(pyns[n]) or isinstance(pyns[n], (staticmethod, classmethod, property))):
+            rec.count("fallback_idiom_defs")
+
+
 def _is_type_checking(test: ast.expr) -> bool:
     return (isinstance(test, ast.Name) and test.id == "TYPE_CHECKING") or (
         isinstance(test, ast.Attribute) and test.attr == "TYPE_CHECKING" and isinstance(test.value, ast.Name) and test.value.id == "typing")
@@ -551,11 +850,11 @@ def type_guarded_names(src: str, class_path: list[str]) -> set[str]:
     They exist for a static reader only (the block never runs): a difference only one agent can know, like instance
     attributes; it is removed by this syntactic rule, never by asking griffe.
     """
-    node: ast.AST = ast.parse(src)
+    body = _parse(src).body
     for cname in class_path:
-        node = next(n for n in node.body if isinstance(n, ast.ClassDef) and n.name == cname)  # type: ignore[attr-defined]
+        body = sorted(_find_classes(body, cname), key=lambda c: c.lineno)[-1].body
     out = set()
-    for st in node.body:  # type: ignore[attr-defined]
+    for st in body:
         if isinstance(st, ast.If) and _is_type_checking(st.test):
             for sub in st.body:
                 if isinstance(sub, ast.Import):
@@ -631,8 +930,33 @@ def compare_external(rec, where: str, sm, dm, spath: str | None, dpath: str | No
     return None
 
 
+def stale_chain(sroot, alias):  # noqa: ANN001, ANN201
+    """Final path of an alias chain followed *by path through the members the tree holds now*, when that differs from the
+    chain of cached target objects at some hop (a hop's cached target is no longer the member stored under its target
+    path); None when no hop is stale or the chain cannot be followed."""
+    stale = False
+    m = alias
+    for _ in range(50):
+        if not m.is_alias:
+            return m.path if stale else None
+        parts = m.target_path.split(".")
+        if parts[0] != sroot.name:
+            return None
+        cur = sroot
+        try:
+            for part in parts[1:]:
+                cur = cur.members[part]
+            if m._target is not None and m._target is not cur:
+                stale = True
+        except (KeyError, AttributeError):
+            return None
+        m = cur
+    return None
+
+
 def classify(what: str, sobj, dobj, extra: dict) -> tuple[str | None, list[str]]:  # noqa: ANN001
-    tried = ["C17-inspector-variadic-required", "C17-inspector-classmethod-drops-cls", "C17-wildcard-misses-side-effect-submodule"]
+    tried = ["C17-inspector-variadic-required", "C17-inspector-classmethod-drops-cls", "C17-wildcard-misses-side-effect-submodule",
+             "C17-static-misses-pattern-targets", "C17-stale-alias-after-wildcard-overwrite"]
     if extra.get("mech") == "variadic-required":
         return "C17-inspector-variadic-required", tried
     if extra.get("mech") == "classmethod-cls":
@@ -716,7 +1040,13 @@ def walk_compare(rec, files: dict, pkgname: str, sroot, droot):  # noqa: ANN001,
         modpath = s.module.path
         rel = modpath.replace(".", "/")
         src = files.get(rel + "/__init__.py", files.get(rel + ".py", ""))
-        bound = assigned_names(src, cpath) if src else set()
+        b = scope_bindings(src, cpath) if src else Bindings()
+        pyscope = sys.modules.get(s.path) if s.is_module and not cpath else resolve_py(pkgname, s.path)
+        pyns = dict(vars(pyscope)) if inspect.ismodule(pyscope) or inspect.isclass(pyscope) else None
+        # bound by the source: statements of the body itself, and statements in blocks of compound statements that CPython ran
+        bound = b.top | {n for n in b.nested if pyns is None or n in pyns}
+        if pyns is not None:
+            observe_branches(rec, b, pyns)
         snames = dict(s.members)
         dnames = dict(d.members)
         # names CPython really bound through `from X import *` count as bound by the source (a dunder listed in __all__)
@@ -769,6 +1099,26 @@ def walk_compare(rec, files: dict, pkgname: str, sroot, droot):  # noqa: ANN001,
         for n, m in list(snames.items()):
             if not m.is_alias and m.is_attribute and n not in bound and "instance-attribute" in m.labels and n not in dnames:
                 del snames[n]
+        # allowed (static only): names written only in branches CPython did not run
+        if pyns is not None:
+            phantom = phantom_names(files, s.path) if s.is_module and not cpath else {n for n in b.nested - b.top if n not in pyns}
+            for n in phantom:
+                if n in snames and n not in dnames and n not in pyns:
+                    del snames[n]
+                    rec.count("non_taken_branch_names_excluded")
+        # known mechanism: names bound only in target positions the visitor has no handler for
+        if pyns is not None:
+            unseen = {n for n in b.targets - set(b.plain) if n in pyns and n in dnames and n not in snames}
+            for n in unseen:
+                del dnames[n]
+            if unseen:
+                rec.count("pattern_target_names_missed", len(unseen))
+                deferred = deferred or (
+                    f"{s.path}: names bound by unpacking / for / with-as / := / case targets are missing from the static tree",
+                    {"dynamic_and_cpython_only": sorted(unseen)}, None, "C17-static-misses-pattern-targets",
+                    ["C17-static-misses-pattern-targets"])
+        else:
+            unseen = set()
         # allowed: names bound under `if TYPE_CHECKING:` only (static only)
         for n in (type_guarded_names(src, cpath) if src else set()) - bound:
             if n in snames and n not in dnames:
@@ -781,9 +1131,15 @@ def walk_compare(rec, files: dict, pkgname: str, sroot, droot):  # noqa: ANN001,
         # third leg for module bodies: the namespace CPython built by running the module
         if pymod is not None and src:
             rec.count("module_namespaces_vs_cpython")
-            cnames = {k for k in vars(pymod) if not (k.startswith("__") and k.endswith("__") and k not in bound)} - side_effect
+            cnames = {k for k in vars(pymod) if not (k.startswith("__") and k.endswith("__") and k not in bound)} - side_effect - unseen
             if set(snames) != cnames:
                 return (f"static member names of {s.path} differ from the namespace CPython built",
+                        {"static_only": sorted(set(snames) - cnames), "cpython_only": sorted(cnames - set(snames))}, None, None, [])
+        if pymod is None and pyns is not None and src:
+            rec.count("class_namespaces_vs_cpython")
+            cnames = {k for k in pyns if not (k.startswith("__") and k.endswith("__") and k not in bound)} - unseen
+            if set(snames) != cnames:
+                return (f"static member names of class {s.path} differ from the class namespace CPython built",
                         {"static_only": sorted(set(snames) - cnames), "cpython_only": sorted(cnames - set(snames))}, None, None, [])
         for n in sorted(snames):
             sm, dm = snames[n], dnames[n]
@@ -807,7 +1163,13 @@ def walk_compare(rec, files: dict, pkgname: str, sroot, droot):  # noqa: ANN001,
                     return (f"{s.path}.{n}: imported {sfin.kind.value} is an alias for one agent only",
                             {"static_alias": sm.is_alias, "dynamic_alias": dm.is_alias}, None, None, [])
                 if sfin.path != dfin.path:
-                    return (f"{s.path}.{n}: aliases reach different final targets", dfin.path, sfin.path, None, [])
+                    what = f"{s.path}.{n}: aliases reach different final targets"
+                    if sm.is_alias and stale_chain(sroot, sm) == dfin.path:
+                        # known mechanism: a hop of the static chain caches a member that a later wildcard expansion replaced
+                        deferred = deferred or (what + " (static chain holds a member replaced by a wildcard expansion)", dfin.path,
+                                                sfin.path, "C17-stale-alias-after-wildcard-overwrite", ["C17-stale-alias-after-wildcard-overwrite"])
+                        continue
+                    return (what, dfin.path, sfin.path, None, ["C17-stale-alias-after-wildcard-overwrite"])
                 continue
             if sfin.kind is not dfin.kind:
                 return (f"{s.path}.{n}: kinds differ", dfin.kind.value, sfin.kind.value, None, [])
